@@ -191,6 +191,12 @@ def _mk_call(rng, st, fn, fault):
             kw["type"] = form
     elif fn == "create_ext_grids":
         kw = {"junctions": jrefs(), "p_bar": round(rng.uniform(1, 16), 2), "t_k": round(rng.uniform(280, 360), 1)}
+        if rng.random() < 0.4:
+            # pressure-only and temperature-only grids in one call (NaN = not given, type inferred per grid)
+            nan = float("nan")
+            forms = [rng.choice(["p", "t", "pt"]) for _ in range(k)]
+            kw["p_bar"] = [round(rng.uniform(1, 16), 2) if "p" in f_ else nan for f_ in forms]
+            kw["t_k"] = [round(rng.uniform(280, 360), 1) if "t" in f_ else nan for f_ in forms]
     elif fn in ("create_pipe", "create_pipes"):
         s = "s" if bulk else ""
         kw = {"from_junction" + s: jrefs() if bulk else jref(), "to_junction" + s: jrefs() if bulk else jref(),
@@ -205,6 +211,8 @@ def _mk_call(rng, st, fn, fault):
             kw["text_k"] = round(rng.uniform(270, 295), 1)
         if rng.random() < 0.2 and not bulk:
             kw["geodata"] = [[0.0, 0.0], [1.0, 2.0]]
+        if bulk and rng.random() < 0.3:
+            kw["geodata"] = rng.choice([[[0.0, 0.0], [1.0, 2.0]], [[[0.0, float(i_)], [1.0, 2.0], [3.0, float(i_)]] for i_ in range(k)]])
         # per-call override of a parameter of the standard type (documented through **kwargs)
         if rng.random() < 0.25:
             kw["k_mm"] = rng.choice([0.05, 0.5])
@@ -218,6 +226,8 @@ def _mk_call(rng, st, fn, fault):
                           ("text_k", round(rng.uniform(270, 295), 1)), ("outer_diameter_mm", 250.0), ("loss_coefficient", 1.0)):
             if rng.random() < 0.35:
                 kw[name] = val
+        if rng.random() < 0.25:
+            kw["geodata"] = [[0.0, 0.0], [1.0, 2.0]] if not bulk or rng.random() < 0.5 else [[[0.0, float(i_)], [2.0, 2.0]] for i_ in range(k)]
     elif fn in ("create_valve", "create_valves"):
         et = "pi" if (P and rng.random() < 0.4) else "ju"
         if bulk:
@@ -268,6 +278,18 @@ def _mk_call(rng, st, fn, fault):
               "qext_w": round(rng.uniform(-1e3, 1e4), 1), "inner_diameter_mm": rng.choice([50.0, 100.0])}
         if rng.random() < 0.3:
             kw["loss_coefficient"] = 1.0
+    elif fn == "create_heat_consumers" and rng.random() < 0.5:
+        # one specification mode per consumer: the argument arrays are only partly filled (NaN = not given)
+        kw = {"from_junctions": jrefs(), "to_junctions": jrefs()}
+        cols = {"controlled_mdot_kg_per_s": [], "qext_w": [], "deltat_k": [], "treturn_k": []}
+        nan = float("nan")
+        for _ in range(k):
+            mode = rng.choice(["mq", "md", "mt", "qd", "qt"])
+            cols["controlled_mdot_kg_per_s"].append(round(rng.uniform(0.1, 1.0), 3) if "m" in mode else nan)
+            cols["qext_w"].append(round(rng.uniform(1e3, 4e4), 0) if "q" in mode else nan)
+            cols["deltat_k"].append(round(rng.uniform(5, 25), 1) if "d" in mode else nan)
+            cols["treturn_k"].append(round(rng.uniform(300, 330), 1) if "t" in mode else nan)
+        kw.update(cols)
     elif fn in ("create_heat_consumer", "create_heat_consumers"):
         s = "s" if bulk else ""
         kw = {"from_junction" + s: jrefs() if bulk else jref(), "to_junction" + s: jrefs() if bulk else jref()}
@@ -328,7 +350,9 @@ def _mk_call(rng, st, fn, fault):
             cands += ["duplicate-std-type-name", "no-std-type-data"]
         if fn in ("create_ext_grid",):
             cands.append("ext-grid-no-values")
-        if bulk and fn in ("create_sinks", "create_sources", "create_junctions"):
+        if bulk and fn in ("create_sinks", "create_sources", "create_junctions", "create_pipes", "create_pipes_from_parameters",
+                           "create_ext_grids", "create_heat_exchangers", "create_heat_consumers", "create_flow_controls",
+                           "create_pressure_controls"):
             cands.append("nan-in-bool")
         if not cands:
             fkind = None
